@@ -111,6 +111,59 @@ def py_triggers(m: mut.Mut, proto: Proto) -> str:
     return "[ndarray-compound]" if hit[0] else ""
 
 
+def ndjson_tag_collision_trigger(m: mut.Mut, proto: Proto) -> str:
+    """Trigger half of a known-finding identity: the package contains two unions with the same case *types* but different tags (they are
+    one std::variant type in C++, which has a single NDJSON converter), and this protocol uses one of them."""
+    c = m.codec
+    groups: dict = {}
+
+    def key(u):
+        try:
+            return (u.nullable, tuple(repr(c.res(c.fq(ct))) for _, ct in u.cases))
+        except Exception:
+            return (u.nullable, tuple(repr(ct) for _, ct in u.cases))
+
+    def tags(u):
+        try:
+            return tuple(c.case_tag(u, i) for i in range(len(u.cases)))
+        except CodecError:
+            return ("?",)
+
+    def collect(t, into):
+        for x in walk_types(t):
+            if isinstance(x, U) and len(x.cases) > 1:
+                into.setdefault(key(x), set()).add(tags(x))
+
+    for d in m.pkg.defs:
+        if isinstance(d, Rec):
+            for _, ft in d.fields:
+                collect(ft, groups)
+        elif isinstance(d, Al):
+            collect(d.type, groups)
+        elif isinstance(d, Proto):
+            for _, st in d.steps:
+                collect(st, groups)
+    mine: dict = {}
+    seen = set()
+
+    def reach(t):
+        for x in walk_types(t):
+            if isinstance(x, U) and len(x.cases) > 1:
+                mine.setdefault(key(x), set())
+            if isinstance(x, N) and x.ns is None and x.name not in seen:
+                seen.add(x.name)
+                d = m.pkg.find(x.name)
+                if isinstance(d, Rec):
+                    for _, ft in d.fields:
+                        reach(ft)
+                elif isinstance(d, Al):
+                    reach(d.type)
+
+    for _, st in proto.steps:
+        reach(st)
+    return "[same-variant-different-tags]" if any(len(groups.get(k, ())) > 1 for k in mine) else ""
+
+
 def decode_output(m: mut.Mut, proto: Proto, fmt: str, out: bytes) -> dict:
     """-> dict(values, problems[list of (kind, text)])"""
     c = m.codec
@@ -168,6 +221,7 @@ def judge(ctx, m: mut.Mut, proto: Proto, vals, data: bytes, r: Result, ep_name: 
                 if df:
                     sig, msg = "value:%s:%s" % (ep_name, "len" if "length" in df else "val"), "values differ at %s" % df
     if sig:
+        sig += (extra or {}).get("trigger", "")
         ip = save_input(ctx, "%s_%s_%08x.in" % (proto.name, ep_name, abs(hash(data)) & 0xFFFFFFFF), data)
         case = dict(extra or {}, model_dir=m.root, protocol=proto.name, endpoint=ep_name, outfmt=outfmt, input_path=ip,
                     values=repr(vals)[:2500], stderr=r.stderr[-1500:], output_head=r.out[:300])
